@@ -38,6 +38,7 @@ func historyIterBody(c *nd.Ctx) nd.Result {
 	closes := c.Choose(2, "application-closes-the-iterator") == 1
 	reads := c.Choose(2, "application-reads-the-message-streams") == 1
 	var readBodies []string
+	ranOut := false
 	ns := stanza.NSClient
 	var env *vsess.Env
 	var setupErr error
@@ -89,6 +90,7 @@ func historyIterBody(c *nd.Ctx) nd.Result {
 		it := h.Fetch(ctx, history.Query{ID: "q1"}, archiveJID, env.S)
 		for take == 3 || got < take {
 			if !it.Next() {
+				ranOut = true
 				break
 			}
 			got++
@@ -120,6 +122,11 @@ func historyIterBody(c *nd.Ctx) nd.Result {
 			cancel()
 			for it.Next() {
 			}
+			ranOut = true
+		}
+		if ranOut && !closes {
+			// iteration has completed: the outcome of the query may be asked for
+			_, _ = it.Err(), it.Result()
 		}
 		appDone = true
 		env.PeerWrite(`<message id='sentinel'><body>s</body></message></stream:stream>`)
